@@ -111,7 +111,7 @@ func main() {
 // failing DELETEs, stalls and releases in between - the volume that makes the pipeline's queues, retry list and
 // batch buffers be written and read by different goroutines at the same time, which TLC's short sequences do not.
 func withRandom(o *common.Opts, raws []json.RawMessage) []json.RawMessage {
-	n := envInt("C11_RANDOM", 12)
+	n := envInt("C11_RANDOM", 32)
 	if o.Thorough() {
 		n = envInt("C11_RANDOM", 48)
 	}
@@ -119,6 +119,23 @@ func withRandom(o *common.Opts, raws []json.RawMessage) []json.RawMessage {
 		r := rand.New(rand.NewSource(o.Seed*7919 + int64(j) + 424242))
 		var sc scenario
 		held := map[string]bool{}
+		if j%2 == 0 {
+			// a pile-up: the database of one resource stalls, every row is asked for once, so that (with a batch
+			// threshold and two or more fanout workers) several workers sit on a batch each; the DELETE of each of
+			// them then fails once; when the stall ends they all fail and hand their batches back at the same moment.
+			// Then the other resource.  Every row is requested exactly once: a context lost on the way is a row left.
+			for _, res := range []string{"A", "B"} {
+				sc.Steps = append(sc.Steps, step{Op: "hold", R: res}, step{Op: "delfail", R: res, N: 4})
+				for _, xb := range r.Perm(4) {
+					sc.Steps = append(sc.Steps, step{Op: "req", R: res, X: 1 + xb/2, B: 1 + xb%2})
+				}
+				sc.Steps = append(sc.Steps, step{Op: "release", R: res}, step{Op: "settle"})
+			}
+			sc.Late = []string{}
+			b, _ := json.Marshal(sc)
+			raws = append(raws, b)
+			continue
+		}
 		for k := 60 + r.Intn(60); k > 0; k-- {
 			res := []string{"A", "B"}[r.Intn(2)]
 			switch p := r.Intn(100); {
